@@ -764,6 +764,10 @@ func rC03Iterator(w *World, r *Report) {
 	// no caller of Reset in the library
 	for _, fn := range w.Funcs {
 		for _, c := range callsTo(fn, "(*sliceiterator.Iterator).Reset") {
+			if _, fresh := c.Common().Args[0].(*ssa.Alloc); fresh && short(fn) == nIterNew {
+				ru.Present("reset-call/"+short(fn), w.IPos(c), "the constructor rewinds the iterator it has just built: nothing was consumed yet")
+				continue
+			}
 			ru.Bad("reset-call/"+short(fn), w.IPos(c), "the library rewinds the argv iterator: tokens would be processed twice")
 		}
 	}
